@@ -49,6 +49,7 @@ type Ecase struct {
 
 // Call the function with the arguments provided.
 func (f *Ecase) Call(s *slip.Scope, args slip.List, depth int) (result slip.Object) {
+	slip.CheckArgCount(s, depth, f, args, 1, -1)
 	d2 := depth + 1
 	key := args[0]
 	var found bool // this approach is needed to achieve 100% coverage
